@@ -85,6 +85,9 @@ def run(c):
             cmd += ["--features", ",".join(feats)]
         p = vlib.sh(cmd, cwd=REPO, env={"CARGO_NET_OFFLINE": "true", "RUSTFLAGS": "-Awarnings"}, timeout=1800, check=False)
         errs = [ln for ln in p.stdout.splitlines() if ln.startswith("error")]
+        if p.returncode != 0 and "could not compile" not in p.stdout and not any(ln.startswith("error[E") for ln in errs):
+            # cargo could not even start compiling (lock file, resolution, registry): that is the environment, not the property
+            raise vlib.ToolError("cargo %s -p %s failed before compiling anything:\n%s" % (verb, crate, vlib.tail(p.stdout, 12)))
         events.append({"k": 0, "ev": "build", "crate": crate, "features": list(feats), "status": "ok" if p.returncode == 0 else "fail",
                        "errors": errs[:3], "verb": verb})
     if c.thorough:
